@@ -25,7 +25,7 @@ Record views := {
   v_names : res (list string);
   v_rows : lrows;                        (* iteration / to_numpy / item access, boxed *)
   v_flat : res (list nat * list (list val));   (* to_flat: index as ordinals, columns *)
-  v_lists : res (list (list (list val)))       (* to_lists: per field per row, null list = [] *)
+  v_lists : res (list (list (option (list val))))   (* to_lists: per field per row, None = null list *)
 }.
 
 Definition denan_row (r : lrow) : lrow := option_map (map (map denan)) r.
@@ -47,7 +47,7 @@ Definition model_views_detail (P : chunked) (V : views) : list bool :=
     res_eqb flat_eqb
       (res_map (fun r => (flat_repeat (seq 0 (length (fst r))) (fst r), snd r)) (m_to_flat P names))
       (v_flat V);
-    res_eqb (list_eqb vll_eqb) (res_map (map (map olist)) (m_to_lists P names)) (v_lists V) ].
+    res_eqb (list_eqb (list_eqb olist_eqb)) (m_to_lists P names) (v_lists V) ].
 
 Definition spec_views_detail (L : lcol) (V : views) : list bool :=
   [ spec_len L =? v_len V;
@@ -59,7 +59,7 @@ Definition spec_views_detail (L : lcol) (V : views) : list bool :=
     res_eqb str_list_eqb (Ok (spec_field_names L)) (v_names V);
     lrows_eqb (denan_rows (rows_of L)) (v_rows V);
     res_eqb flat_eqb (Ok (spec_list_index L, spec_flat L)) (v_flat V);
-    res_eqb (list_eqb vll_eqb) (Ok (lcols L)) (v_lists V) ].
+    res_eqb (list_eqb (list_eqb olist_eqb)) (Ok (map (with_missing (lvalidity L)) (lcols L))) (v_lists V) ].
 
 Definition all_true (l : list bool) : bool := forallb (fun b => b) l.
 
